@@ -339,7 +339,7 @@ def rhoOms (p rate mp : K) (mkt vol0 ttl vol : Nat) (isBuy trig : Bool) : Rho K 
 is replaced by a limit order of the configured volume and lifetime priced at market price ×
 (1 + rate), buying iff the rate is positive; any other order (other market, or the shock already
 spent) is left alone -/
-theorem oms_hook (p rate mp : K) (mkt vol0 ttl vol : Nat) (isBuy trig : Bool) (hm : mkt = 5 ∨ mkt = 6) :
+theorem oms_hook (p rate mp : K) (mkt vol0 ttl vol : Nat) (isBuy trig : Bool) :
     resultG omsObs (rhoOms p rate mp mkt vol0 ttl vol isBuy trig) evEnv FUEL
       "OrderMistakeShock.hooked_before_order" [.ref 3, .ref 7, .ref 1] (omsSt true)
       = (match Events.mistakeHook 5 rate vol ttl { triggered := trig } mkt mp with
